@@ -186,12 +186,20 @@ def main(tier):
                 for later in (('all', 'consumer') if tier == 'quick' else ('redo', 'ifchange', 'consumer', 'all')):
                     for prior in ('never-built', 'built-then-removed'):
                         extra.append(('early-abort', cause, rule, later, prior, rep))
-    return histcheck.run(PROP, tier, Dispatch(CASE), extra + histcheck.seeds_for(PROP, tier, n), 'exploration', RULE, ASSUME, budget, floor=20)
+    import random
+    from .. import common, faults
+    common.ensure_built()
+    fn, its, cov = faults.layer(PROP, tier, random.Random(common.seed()))
+    return histcheck.run(PROP, tier, Dispatch(CASE), extra + histcheck.seeds_for(PROP, tier, n), 'exploration', RULE + faults.LAYER_RULE % faults.LAYER_JUDGED[PROP], ASSUME, budget, floor=20,
+                         layers=[(fn, its, cov, 30 if tier == 'quick' else 300)])
 
 
 def replay(path):
     import json
     d = json.load(open(path))
+    if d['replay'].get('kind') == 'io-fault':
+        from .. import faults
+        return faults.replay(PROP, path)
     if d['replay'].get('kind') == 'early-abort':
         from .. import common
         common.ensure_built()
